@@ -41,6 +41,7 @@ RULE = (
     "canonical JSON of the case"
 )
 ASSUMPTIONS = [
+    "history part: operations are builder calls from a 39-call alphabet and in-place mutation of every leaf of a returned config object; every ordered pair (build, customise, build) is executed in a forked child starting from the unmutated library state and compared with that state's result (shared mutable defaults / caches across calls break 'every unspecified option gets the schema default')",
     "argument alphabets: 2-3 well-typed non-default values per argument (strings include YAML-hostile ones: 'null', "
     "'true', '123', '1e5', '~', '0x1F', paths with blanks and colons; floats include 1e-5 / 1e-8); values outside the "
     "alphabets and OmegaConf interpolation strings ('${..}') are outside the bound",
@@ -1421,12 +1422,28 @@ def run(ctx):
         hs, ls = core.shard_list(heavy, n), core.shard_list(light, n)
         shards = [h + (ls[i] if i < len(ls) else []) for i, h in enumerate(hs)]
         core.pmap(ctx, work, shards)
+        # E2 part: call histories (build -> customise the returned object in place -> build again), each in a
+        # forked child that starts from the unmutated library state; differential oracle against that state
+        from props import _c20_hist
+
+        _c20_hist.explore(ctx, ctx.tier)
+        ctx.bounds["history_search"] = "all ordered pairs (call_i, mutate, call_j) over %d builder calls%s" % (
+            len(_c20_hist.calls()), "" if ctx.tier == "quick" else ", 3 accumulating rounds")
     finally:
         shutil.rmtree(_TMP["dir"], ignore_errors=True)
         _TMP["dir"] = None
 
 
 def replay(case):
+    if case.get("kind") == "history":
+        from props import _c20_hist
+
+        mods()
+        return _c20_hist.replay(case)
+    return _replay_case(case)
+
+
+def _replay_case(case):
     try:
         o = run_case(case)
         return {"case": describe(case), "outcome": o.outcome, "errors": o.errors, "violates": bool(o.errors)}
